@@ -57,6 +57,8 @@ def run(chk):
             vecs.append(list(v))
     for _ in range(50 if not thorough else 500):
         vecs.append([rng.randint(0, 200) for _ in range(rng.randint(2, 12))])
+    for v in ([60000, 1500, 40, 3], [3000000, 2000001, 5], [100000, 1], [70000, 70000], [2 ** 31, 3]):
+        vecs.append(v)
     chk.exhaustive = True
     ops = []
     for v in vecs:
@@ -86,6 +88,20 @@ def run(chk):
                     if real[1] < sum(v):
                         chk.violation(f"C16|{name}|below-observed", f"{name}({v}) = {real[1]} < observed richness {sum(v)}",
                                       {"fn": name, "counts": v})
+    # ---- histories: a Series edited in place between two calls must be read again
+    for fn in ("jaccard_index", "overlap", "overlap_coefficient"):
+        s1 = pd.Series(["a", "b", "c", None], dtype=object)
+        s2 = pd.Series(["b", "c", "d"], dtype=object)
+        r1 = core.call_real(lambda: getattr(st, fn)(s1, s2))
+        s1.iloc[0] = "d"
+        s2.iloc[0] = None
+        r2 = core.call_real(lambda: getattr(st, fn)(s1, s2))
+        A, B = {"d", "b", "c"}, {"c", "d"}
+        want = {"jaccard_index": len(A & B) / len(A | B), "overlap": len(A & B), "overlap_coefficient": len(A & B) / min(len(A), len(B))}[fn]
+        chk.case(nontrivial_key=("series-history", fn))
+        if r2 != ("ok", want):
+            chk.violation(f"C16|{fn}|stale-after-in-place-edit", f"{fn} on a Series edited in place after an earlier call = {r2}, set algebra gives {want}",
+                          {"fn": fn, "first_call": str(r1)})
     # ---- overlap measures
     ops, checks = [], []
     universe = ["a", "b", "c", "dd", "", "E", "f g"]
